@@ -1,0 +1,27 @@
+//go:build verif
+
+// Command verifstringer runs the repository's fitstringer on a types file and
+// writes the generated source to stdout. Used by the verification harness in
+// /verif only (tag verif); it lives here because fitstringer is internal.
+package main
+
+import (
+	"fmt"
+	"os"
+	"strings"
+
+	"github.com/tormoder/fit/cmd/fitgen/internal/fitstringer"
+)
+
+func main() {
+	if len(os.Args) != 3 {
+		fmt.Fprintln(os.Stderr, "usage: verifstringer <types.go> <space separated type names>")
+		os.Exit(2)
+	}
+	out, err := fitstringer.Generate(strings.Fields(os.Args[2]), os.Args[1])
+	if err != nil {
+		fmt.Fprintln(os.Stderr, err)
+		os.Exit(1)
+	}
+	os.Stdout.Write(out)
+}
